@@ -42,7 +42,7 @@ def extractBits (data : Bytes) (startBit nbits : Nat) : Except BitErr Nat :=
 structure Raw where
   data : Bytes
   pos  : Nat
-deriving Repr, DecidableEq
+deriving Repr, DecidableEq, Inhabited
 
 /-- `RawPacketData.read_as_int(nbits)` -/
 def readAsInt (r : Raw) (nbits : Int) : Except BitErr (Nat × Raw) :=
